@@ -203,11 +203,23 @@ class Models:
             if msg:
                 ev['msg'] = msg[0]
             return [(None, I.mkev(st, fr, ev))]
-        # closures handed to an unmodelled external: record (rules fail closed on it)
-        for a in args:
-            o = I.own(st, a)
-            if o is not None and is_agg(o) and agg_kind(o).startswith('closure:'):
-                I.G.notes.append(('unmodelled higher-order external', np, fr.key))
+        # local closures / fn items handed to an unmodelled external: the external may call them.  Their effects must
+        # not vanish from the graph, so the callable is run once, right after the external's own event, on symbolic
+        # arguments derived from the external's operands (approximation: "called exactly once").
+        hof = None
+        if cont[0] == 'mir' and not (c and c.get('opaque_key')):
+            for a in args:
+                o = I.own(st, a)
+                if o is not None and is_agg(o) and agg_kind(o).startswith('closure:'):
+                    key = agg_kind(o)[len('closure:'):].split('|', 1)[0]
+                    if key in I.B:
+                        hof = (a, I.B[key]['arg_count'] - 1)
+                        break
+                if o is not None and VAL[o][0] == 'fn' and VAL[o][2] and VAL[o][2] in I.B:
+                    hof = (a, I.B[VAL[o][2]]['arg_count'])
+                    break
+            if hof:
+                I.G.notes.append(('higher-order external runs local callable once', np, fr.key))
         I.emit(st, fr, ev)
         # havoc &mut arguments
         if np not in NO_HAVOC:
@@ -240,6 +252,10 @@ class Models:
                 I.kill_facts_about(st, f)
         else:
             I.kill_facts_about(st, val)
+        if hof:
+            rs = [r for r in rargs if r is not None and not (is_agg(r) and agg_kind(r).startswith('closure:'))]
+            cargs = [SYM('app', '%s.cbarg%d' % (np, i), site, *rs) for i in range(max(hof[1], 0))]
+            return self.call_closure(I, st, fr, t, hof[0], cargs, 'const', (cont[1], cont[2], val))
         return self.finish(I, st, fr, t, cont, val)
 
     def result_value(self, I, np, site, rargs, dt):
